@@ -5,11 +5,16 @@ import (
 	"math/big"
 	"os"
 	"runtime"
+	"sort"
+	"strconv"
+	"strings"
 	"sync"
 	"sync/atomic"
 	"time"
 
 	"github.com/formancehq/ledger/internal/machine"
+	"github.com/formancehq/ledger/internal/machine/script/compiler"
+	"github.com/formancehq/ledger/internal/machine/vm/program"
 	"github.com/formancehq/ledger/verifh/ev"
 	"github.com/formancehq/ledger/verifh/reg"
 )
@@ -25,6 +30,14 @@ import (
 // is built from source-level percent literals ("12.345678%", parsed by
 // ParsePortionSpecific) whose reduced numerators are large (up to ~2^27).
 // Oracle: parts sum to amount; part_i = floor(amount*p_i) + [i < leftover].
+//
+// VM-level leg (c24vmLeg, runs first): Allocate's result only reaches a user through the
+// machine (OP_MAKE_ALLOTMENT, OP_ALLOC, then OP_TAKE/OP_SEND), so every vector of length
+// <= 3 (4 in the thorough tier) over a smaller menu - zero portions at every position,
+// `remaining` resolving to 0, portion variables bound to any value of the menu - is also
+// written as a real Numscript destination allotment and source allotment, compiled by the
+// real compiler and run by the real machine; the same oracle is applied to the POSTINGS
+// (amount per destination account / per source account, total = amount sent).
 func init() { reg.Register("C24", c24) }
 
 func ratMenu(maxDen int64) []*big.Rat {
@@ -150,6 +163,10 @@ func c24() int {
 	samples := ev.NewSamples(5)
 	exhaustive := atomic.Bool{}
 	exhaustive.Store(true)
+
+	// The VM-level leg runs first: it is the smaller space, and a budget cut on a
+	// loaded machine must shorten the direct leg's depth, not drop a whole dimension.
+	vmCov, vmSamples := c24vmLeg(r, &exhaustive)
 
 	checkVector := func(portions []machine.Portion, desc string) {
 		a, err := machine.NewAllotment(portions)
@@ -475,11 +492,13 @@ func c24() int {
 		byClass[clsName[c]] = clsCount[c].Load()
 	}
 	cov := ev.Coverage{
-		"evaluations":         evals.Load(),
-		"distinct_nontrivial": distinctN.Load(),
-		"rule": fmt.Sprintf("(A) all portion vectors of length<=%d over rationals n/d, d<=%d (%d values, zero included), summing to 1 or <1 with `remaining` at every position; (B) %d vectors over the percent literals %v parsed by ParsePortionSpecific: [p remaining], [remaining p], [p 1-p], [p q remaining] with `remaining` at every position for every ordered pair p+q<=1, [p q] when p+q=1; every vector x %d fixed amounts (0..%d; 2^e-1..2^e+1 for e in %v; 2^64-1..2^64+9; 10^30-1..10^30+9; real-world %v) + its own straddling amounts floor(T/n), floor(T/n)+1 for every numerator n of the resolved vector and T = 2^e, e in %v (those not already in the fixed menu); distinct_nontrivial = distinct resolved vectors allocated with a positive amount",
+		"evaluations":          evals.Load() + vmCov["runs"].(int64),
+		"allocate_evaluations": evals.Load(),
+		"vm_leg":               vmCov,
+		"distinct_nontrivial":  distinctN.Load(),
+		"rule": vmCov["rule"].(string) + "; on Allotment.Allocate directly: " + fmt.Sprintf("(A) all portion vectors of length<=%d over rationals n/d, d<=%d (%d values, zero included), summing to 1 or <1 with `remaining` at every position; (B) %d vectors over the percent literals %v parsed by ParsePortionSpecific: [p remaining], [remaining p], [p 1-p], [p q remaining] with `remaining` at every position for every ordered pair p+q<=1, [p q] when p+q=1; every vector x %d fixed amounts (0..%d; 2^e-1..2^e+1 for e in %v; 2^64-1..2^64+9; 10^30-1..10^30+9; real-world %v) + its own straddling amounts floor(T/n), floor(T/n)+1 for every numerator n of the resolved vector and T = 2^e, e in %v (those not already in the fixed menu); distinct_nontrivial = distinct resolved vectors allocated with a positive amount",
 			maxLen, maxDen, len(menu), len(pvecs), literals, len(amounts), maxAmt, bandExps, realWorld, thresholdExps),
-		"samples":                                   samples.List(),
+		"samples":                                   append(samples.List(), vmSamples...),
 		"vectors":                                   vectors.Load(),
 		"cases_with_leftover":                       leftoverCases.Load(),
 		"percent_literal_vectors":                   percentVectors.Load(),
@@ -492,5 +511,555 @@ func c24() int {
 		"exhaustive":                                exhaustive.Load(),
 	}
 	_ = os.Stdout
-	return r.Finish(cov, []string{"Allocate is called directly on machine.Allotment built by NewAllotment; compiler-level rejection of non-100% allotments is exercised by C22's program space"})
+	return r.Finish(cov, []string{
+		"legs (A) and (B) call Allocate directly on machine.Allotment built by NewAllotment; compiler-level rejection of non-100% allotments is exercised by C22's program space",
+		"leg (VM) drives the machine runtime only (internal/machine: compiler.Compile + vm.Machine with the call sequence of MachineNumscriptRuntimeAdapter.Execute) on an in-memory store where every account holds 10^40 of every asset; a part is what the postings move to the portion's own destination account / take from its own source account (a zero-amount posting and no posting are the same part: 0)",
+		"the interpreter runtime (github.com/formancehq/numscript, experimental feature) does not use internal/machine's Allotment/OP_ALLOC: it is outside C24's anchors; its agreement with the machine on the shared language is C26's matter",
+		"a script of the (VM) space that does not compile, fails or panics is an engine error (the space is built from what VisitAllotment accepts, with enough funds), never a C24 violation",
+	})
+}
+
+// ---------------------------------------------------------------------------
+// VM-level leg: the same portion vectors, written as real Numscript allotments,
+// compiled by the real compiler and executed by the real machine (OP_MAKE_ALLOTMENT,
+// OP_ALLOC, OP_TAKE / OP_SEND). Allocate's result is not what a user observes: the
+// parts travel through the VM before they become postings, so the rule is checked
+// again on the POSTINGS (amount per destination account / per source account).
+// ---------------------------------------------------------------------------
+
+// c24vmShape is one portion vector as written in a script: specific values in
+// order, `remaining` at remPos (-1: none, the specifics sum to exactly 1).
+type c24vmShape struct {
+	vals   []*big.Rat // one entry per portion; nil at remPos
+	remPos int
+}
+
+func (s c24vmShape) resolved() []*big.Rat {
+	out := make([]*big.Rat, len(s.vals))
+	sum := new(big.Rat)
+	for i, v := range s.vals {
+		if i != s.remPos {
+			out[i] = v
+			sum.Add(sum, v)
+		}
+	}
+	if s.remPos >= 0 {
+		out[s.remPos] = new(big.Rat).Sub(big.NewRat(1, 1), sum)
+	}
+	return out
+}
+
+// c24vmShapes: every vector of exactly n portions over the menu, either n specifics
+// summing to 1, or n-1 specifics summing to <= 1 with `remaining` at every position
+// (so `remaining` resolves to 0 whenever the specifics already reach 1). Menu order.
+func c24vmShapes(menu []*big.Rat, n int) []c24vmShape {
+	one := big.NewRat(1, 1)
+	var out []c24vmShape
+	var rec func(vec []*big.Rat, sum *big.Rat, k int, f func([]*big.Rat, *big.Rat))
+	rec = func(vec []*big.Rat, sum *big.Rat, k int, f func([]*big.Rat, *big.Rat)) {
+		if len(vec) == k {
+			f(vec, sum)
+			return
+		}
+		for _, m := range menu {
+			ns := new(big.Rat).Add(sum, m)
+			if ns.Cmp(one) > 0 {
+				continue
+			}
+			rec(append(append([]*big.Rat{}, vec...), m), ns, k, f)
+		}
+	}
+	rec(nil, new(big.Rat), n, func(vec []*big.Rat, sum *big.Rat) {
+		if sum.Cmp(one) == 0 {
+			out = append(out, c24vmShape{vals: vec, remPos: -1})
+		}
+	})
+	rec(nil, new(big.Rat), n-1, func(vec []*big.Rat, _ *big.Rat) {
+		for pos := 0; pos < n; pos++ {
+			vals := make([]*big.Rat, 0, n)
+			vals = append(vals, vec[:pos]...)
+			vals = append(vals, nil)
+			vals = append(vals, vec[pos:]...)
+			out = append(out, c24vmShape{vals: vals, remPos: pos})
+		}
+	})
+	return out
+}
+
+// c24vmPercent spells v as a percent literal when it has a finite decimal
+// expansion (1/8 = "12.5%"), "" otherwise.
+func c24vmPercent(v *big.Rat) string {
+	x := new(big.Rat).Mul(v, big.NewRat(100, 1))
+	for k := 0; k <= 8; k++ {
+		s := x.FloatString(k)
+		if back, ok := new(big.Rat).SetString(s); ok && back.Cmp(x) == 0 {
+			return s + "%"
+		}
+	}
+	return ""
+}
+
+func c24vmSpell(v *big.Rat, percent bool) string {
+	if percent {
+		if s := c24vmPercent(v); s != "" {
+			return s
+		}
+	}
+	return v.Num().String() + "/" + v.Denom().String()
+}
+
+// c24vmProgram is one script of the VM leg. Portions whose bit is set in varMask are
+// `portion` variables (bound through SetVarsFromJSON), the others literals. The
+// compiler accepts exactly: no `remaining` and no variable and literals = 100%, or a
+// `remaining` and literals < 100% (allotment.go: VisitAllotment).
+type c24vmProgram struct {
+	shape   c24vmShape
+	varMask uint
+	percent bool // percent spelling of the values that have one (literals and variable values)
+	source  bool // source allotment (`p from @s_i`), else destination allotment (`p to @d_i`)
+	seq     int  // rank in the enumeration
+}
+
+func (p c24vmProgram) form() string {
+	if p.source {
+		return "source"
+	}
+	return "destination"
+}
+
+// text renders the script. amount == nil: the amount is the variable $amt.
+func (p c24vmProgram) text(amount *big.Int) (string, map[string]string) {
+	vars := map[string]string{}
+	var decl, body strings.Builder
+	for i, v := range p.shape.vals {
+		var por string
+		switch {
+		case i == p.shape.remPos:
+			por = "remaining"
+		case p.varMask&(1<<uint(i)) != 0:
+			name := fmt.Sprintf("p%d", i)
+			decl.WriteString("\tportion $" + name + "\n")
+			vars[name] = c24vmSpell(v, p.percent)
+			por = "$" + name
+		default:
+			por = c24vmSpell(v, p.percent)
+		}
+		if p.source {
+			fmt.Fprintf(&body, "\t\t%s from @s%d\n", por, i)
+		} else {
+			fmt.Fprintf(&body, "\t\t%s to @d%d\n", por, i)
+		}
+	}
+	amt := "$amt"
+	if amount == nil {
+		decl.WriteString("\tmonetary $amt\n")
+	} else {
+		amt = "[" + assetMain + " " + amount.String() + "]"
+	}
+	var sb strings.Builder
+	if decl.Len() > 0 {
+		sb.WriteString("vars {\n" + decl.String() + "}\n")
+	}
+	sb.WriteString("send " + amt + " (\n")
+	if p.source {
+		sb.WriteString("\tsource = {\n" + body.String() + "\t}\n\tdestination = @d\n")
+	} else {
+		sb.WriteString("\tsource = @world\n\tdestination = {\n" + body.String() + "\t}\n")
+	}
+	sb.WriteString(")\n")
+	return sb.String(), vars
+}
+
+// c24vmPrograms: every accepted way of writing the shape: each specific portion a
+// literal or a variable, fraction or percent spelling, destination or source allotment.
+func c24vmPrograms(s c24vmShape) []c24vmProgram {
+	one := big.NewRat(1, 1)
+	var specIdx []int
+	hasPercent := false
+	for i, v := range s.vals {
+		if i != s.remPos {
+			specIdx = append(specIdx, i)
+			if c24vmPercent(v) != "" {
+				hasPercent = true
+			}
+		}
+	}
+	var out []c24vmProgram
+	for sub := uint(0); sub < 1<<uint(len(specIdx)); sub++ {
+		var mask uint
+		lit := new(big.Rat)
+		for b, i := range specIdx {
+			if sub&(1<<uint(b)) != 0 {
+				mask |= 1 << uint(i)
+			} else {
+				lit.Add(lit, s.vals[i])
+			}
+		}
+		if s.remPos < 0 && mask != 0 {
+			continue // "the sum of portions might be less/greater than 100%"
+		}
+		if s.remPos >= 0 && lit.Cmp(one) >= 0 {
+			continue // "known portions are already equal to 100%"
+		}
+		for _, percent := range []bool{false, true} {
+			if percent && !hasPercent {
+				continue
+			}
+			for _, source := range []bool{false, true} {
+				out = append(out, c24vmProgram{shape: s, varMask: mask, percent: percent, source: source})
+			}
+		}
+	}
+	return out
+}
+
+// kinds of zero-ratio portions (the portions whose floor is 0 whatever the amount: the
+// only thing they can ever carry is a leftover unit)
+const (
+	c24zLiteral = iota
+	c24zVariable
+	c24zRemaining
+	c24zKinds
+)
+
+var c24zName = [c24zKinds]string{"literal-zero", "variable-bound-to-zero", "remaining-resolving-to-zero"}
+
+type c24vmStats struct {
+	shapes, programs, compiled, literalAmountPrograms atomic.Int64
+	runs, leftoverRuns, postings, zeroPostings        atomic.Int64
+	byForm                                            [2]atomic.Int64
+	withVariable, withPercent                         atomic.Int64
+	// runs where a zero-ratio portion sits among the first `leftover` parts, i.e. is
+	// owed a rounding unit: [form][kind]
+	zeroOwedUnit [2][c24zKinds]atomic.Int64
+	distinct     sync.Map
+	distinctN    atomic.Int64
+	failures     atomic.Int64
+}
+
+func c24vmLeg(r *ev.Run, exhaustive *atomic.Bool) (ev.Coverage, []any) {
+	// denominator bound per vector length (index = length); simplest first
+	denByLen := ev.Pick(r, []int64{0, 6, 6, 6}, []int64{0, 8, 8, 8, 4})
+	maxLen := len(denByLen) - 1
+	maxAmt := ev.Pick(r, 24, 48)
+	litSmall := ev.Pick(r, []int64{0, 1, 7, 10}, []int64{0, 1, 2, 3, 7, 10, 100})
+	// The leg may use at most half of the run's budget: on an overloaded machine the
+	// cut falls on its last (longest) vectors and the direct legs still get their share.
+	legStart := r.Elapsed()
+	expired := func() bool { return r.Expired() || r.Elapsed()-legStart > r.Budget()/2 }
+
+	var amounts []*big.Int
+	for i := 0; i <= maxAmt; i++ {
+		amounts = append(amounts, big.NewInt(int64(i)))
+	}
+	for _, e := range []uint{63, 64} {
+		base := new(big.Int).Lsh(big.NewInt(1), e)
+		for k := int64(-1); k <= 1; k++ {
+			amounts = append(amounts, new(big.Int).Add(base, big.NewInt(k)))
+		}
+	}
+	ten30 := new(big.Int).Exp(big.NewInt(10), big.NewInt(30), nil)
+	for _, k := range []int64{0, 1, 7} {
+		amounts = append(amounts, new(big.Int).Add(ten30, big.NewInt(k)))
+	}
+	var litAmounts []*big.Int
+	for _, i := range litSmall {
+		litAmounts = append(litAmounts, big.NewInt(i))
+	}
+	litAmounts = append(litAmounts, new(big.Int).Add(new(big.Int).Lsh(big.NewInt(1), 64), big.NewInt(1)))
+	// every source account holds this much of every asset: "enough funds"
+	funds := new(big.Int).Exp(big.NewInt(10), big.NewInt(40), nil)
+
+	st := &c24vmStats{}
+	samples := ev.NewSamples(6)
+
+	fail := func(msg string) {
+		if st.failures.Add(1) <= 5 {
+			r.EngineError(msg)
+		}
+	}
+	// Workers race; what is reported for a signature is its FIRST failing run in
+	// enumeration order (script rank, then amount rank), whatever the interleaving.
+	type finding struct {
+		rank   [2]int
+		what   string
+		replay map[string]any
+	}
+	var fmu sync.Mutex
+	findings := map[string]*finding{}
+	report := func(sig string, rank [2]int, what func() string, replay func() map[string]any) {
+		fmu.Lock()
+		defer fmu.Unlock()
+		if f, ok := findings[sig]; ok && (f.rank[0] < rank[0] || (f.rank[0] == rank[0] && f.rank[1] <= rank[1])) {
+			return
+		}
+		findings[sig] = &finding{rank, what(), replay()}
+	}
+
+	// evaluate one run of prog (amount given by vars or baked into the text)
+	evalRun := func(p c24vmProgram, text string, prog *program.Program, vars map[string]string, resolved []*big.Rat, amt *big.Int, amtRank int) {
+		res := runMachine(prog, vars, vmStore{&fakeStore{allAccountsExist: true, uniform: funds}})
+		st.runs.Add(1)
+		fi := 0
+		if p.source {
+			fi = 1
+		}
+		st.byForm[fi].Add(1)
+		if res.Panic != nil {
+			fail(fmt.Sprintf("vm leg: panic %v at %s (amount %s) | %s", res.Panic, res.PanicAt, amt, text))
+			return
+		}
+		if res.Err != nil {
+			fail(fmt.Sprintf("vm leg: a script of the space (valid 100%% allotment, enough funds) fails at stage %s: %s (amount %s) | %s", res.Stage, shortErr(res.Err), amt, text))
+			return
+		}
+		n := len(resolved)
+		floors := make([]*big.Int, n)
+		total := new(big.Int)
+		for i, q := range resolved {
+			f := new(big.Int).Mul(amt, q.Num())
+			f.Div(f, q.Denom())
+			floors[i] = f
+			total.Add(total, f)
+		}
+		left := new(big.Int).Sub(amt, total)
+		if left.Sign() > 0 {
+			st.leftoverRuns.Add(1)
+		}
+		// the part of portion i = what the postings move to @d<i> / from @s<i>
+		got := make([]*big.Int, n)
+		for i := range got {
+			got[i] = new(big.Int)
+		}
+		sum := new(big.Int)
+		for _, po := range res.Postings {
+			a := po.Amount.ToBigInt()
+			sum.Add(sum, a)
+			if a.Sign() == 0 {
+				st.zeroPostings.Add(1)
+			}
+			acc := po.Destination
+			pfx := "d"
+			if p.source {
+				acc, pfx = po.Source, "s"
+			}
+			if idx, err := strconv.Atoi(strings.TrimPrefix(acc, pfx)); err == nil && strings.HasPrefix(acc, pfx) && idx >= 0 && idx < n {
+				got[idx].Add(got[idx], a)
+			}
+		}
+		st.postings.Add(int64(len(res.Postings)))
+		outIdx, valIdx := -1, -1
+		wants := make([]*big.Int, n)
+		for i := range got {
+			want := new(big.Int).Set(floors[i])
+			owed := big.NewInt(int64(i)).Cmp(left) < 0
+			if owed {
+				want.Add(want, big.NewInt(1))
+			}
+			wants[i] = want
+			if resolved[i].Sign() == 0 && owed {
+				k := c24zLiteral
+				switch {
+				case i == p.shape.remPos:
+					k = c24zRemaining
+				case p.varMask&(1<<uint(i)) != 0:
+					k = c24zVariable
+				}
+				st.zeroOwedUnit[fi][k].Add(1)
+			}
+			if got[i].Cmp(want) != 0 {
+				if got[i].Cmp(floors[i]) < 0 || got[i].Cmp(new(big.Int).Add(floors[i], big.NewInt(1))) > 0 {
+					if outIdx < 0 {
+						outIdx = i
+					}
+				} else if valIdx < 0 {
+					valIdx = i
+				}
+			}
+		}
+		partClass := func(i int) string {
+			if resolved[i].Sign() == 0 {
+				return "zero-portion"
+			}
+			return "positive-portion"
+		}
+		describe := func(i int) string {
+			return fmt.Sprintf("send [%s %s] through a %s allotment resolving to %v: portion %d (%s) carries %s on the postings, want %s (floor %s, %s leftover unit(s) to the earliest parts); parts on the postings %v sum to %s",
+				assetMain, amt, p.form(), resolved, i, resolved[i], got[i], wants[i], floors[i], left, got, sum)
+		}
+		replay := func() map[string]any {
+			return map[string]any{"program": text, "vars": vars, "uniform_balance": funds.String(), "amount": amt.String(),
+				"resolved": fmt.Sprint(resolved), "postings": postingsString(res.Postings), "want_parts": fmt.Sprint(wants)}
+		}
+		rank := [2]int{p.seq, amtRank}
+		switch {
+		case outIdx >= 0:
+			report("C24:vm:"+p.form()+"-allotment:part-out-of-floor-range:"+partClass(outIdx), rank, func() string { return describe(outIdx) + " | " + text }, replay)
+		case valIdx >= 0:
+			report("C24:vm:"+p.form()+"-allotment:part-value:"+partClass(valIdx), rank, func() string { return describe(valIdx) + " | " + text }, replay)
+		case sum.Cmp(amt) != 0:
+			report("C24:vm:"+p.form()+"-allotment:sum", rank, func() string {
+				return fmt.Sprintf("send [%s %s] through a %s allotment resolving to %v: postings sum to %s | %s", assetMain, amt, p.form(), resolved, sum, text)
+			}, replay)
+		}
+	}
+
+	handle := func(p c24vmProgram) {
+		st.programs.Add(1)
+		if p.varMask != 0 {
+			st.withVariable.Add(1)
+		}
+		if p.percent {
+			st.withPercent.Add(1)
+		}
+		resolved := p.shape.resolved()
+		// (1) amount as the variable $amt: one compilation, every amount
+		text, vars := p.text(nil)
+		prog, err := compiler.Compile(text)
+		if err != nil {
+			fail("vm leg: the compiler rejects a 100% allotment of the space: " + shortErr(err) + " | " + text)
+			return
+		}
+		st.compiled.Add(1)
+		for ai, amt := range amounts {
+			v := make(map[string]string, len(vars)+1)
+			for k, x := range vars {
+				v[k] = x
+			}
+			v["amt"] = assetMain + " " + amt.String()
+			evalRun(p, text, prog, v, resolved, amt, ai)
+		}
+		samples.Add(map[string]any{"program": text, "vars": vars, "resolved": fmt.Sprint(resolved), "amounts": len(amounts)})
+		// distinct (form, resolved vector) run with positive amounts
+		if _, loaded := st.distinct.LoadOrStore(p.form()+" "+fmt.Sprint(resolved), true); !loaded {
+			st.distinctN.Add(1)
+		}
+		// (2) amount as a literal `[COIN n]`: one compilation per amount (reduced menu,
+		// fraction spelling only: the spelling of a portion cannot meet the amount's)
+		if p.percent {
+			return
+		}
+		for ai, amt := range litAmounts {
+			if expired() {
+				exhaustive.Store(false)
+				return
+			}
+			ltext, lvars := p.text(amt)
+			lprog, err := compiler.Compile(ltext)
+			if err != nil {
+				fail("vm leg: the compiler rejects a 100% allotment of the space: " + shortErr(err) + " | " + ltext)
+				return
+			}
+			st.literalAmountPrograms.Add(1)
+			evalRun(p, ltext, lprog, lvars, resolved, amt, len(amounts)+ai)
+		}
+	}
+
+	stagesDone := []string{}
+	legCut := false
+	seq := 0
+	var spaceDesc []string
+	for n := 1; n <= maxLen; n++ {
+		menu := ratMenu(denByLen[n])
+		spaceDesc = append(spaceDesc, fmt.Sprintf("length %d: d<=%d (%d values)", n, denByLen[n], len(menu)))
+		shapes := c24vmShapes(menu, n)
+		var progs []c24vmProgram
+		for _, s := range shapes {
+			for _, p := range c24vmPrograms(s) {
+				p.seq = seq
+				seq++
+				progs = append(progs, p)
+			}
+		}
+		st.shapes.Add(int64(len(shapes)))
+		ch := make(chan c24vmProgram, 64)
+		var wg sync.WaitGroup
+		var cut atomic.Bool
+		for w := 0; w < runtime.NumCPU(); w++ {
+			wg.Add(1)
+			go func() {
+				defer wg.Done()
+				for p := range ch {
+					if expired() {
+						cut.Store(true)
+						continue
+					}
+					handle(p)
+				}
+			}()
+		}
+		for _, p := range progs {
+			ch <- p
+		}
+		close(ch)
+		wg.Wait()
+		if cut.Load() || expired() {
+			exhaustive.Store(false)
+			legCut = true
+			break
+		}
+		stagesDone = append(stagesDone, fmt.Sprintf("length-%d", n))
+	}
+	{
+		sigs := make([]string, 0, len(findings))
+		for sig := range findings {
+			sigs = append(sigs, sig)
+		}
+		sort.Strings(sigs)
+		for _, sig := range sigs {
+			r.Violation(sig, findings[sig].what, findings[sig].replay)
+		}
+	}
+
+	if legCut {
+		// same reading as ev's capped runs: a guard means something only when the space was walked to its end
+		r.Note(fmt.Sprintf("vm leg cut by the time budget after %v (lengths fully covered: %v): its vacuity guards are not evaluated", r.Elapsed()-legStart, stagesDone))
+	}
+	if r.ViolationCount() == 0 && !legCut {
+		switch {
+		case st.compiled.Load() == 0 || st.literalAmountPrograms.Load() == 0:
+			r.EngineError("vacuous: vm leg compiled no script")
+		case st.byForm[0].Load() == 0 || st.byForm[1].Load() == 0:
+			r.EngineError(fmt.Sprintf("vacuous: vm leg ran %d destination-allotment and %d source-allotment scripts", st.byForm[0].Load(), st.byForm[1].Load()))
+		case st.leftoverRuns.Load() == 0:
+			r.EngineError("vacuous: vm leg had no run with a leftover unit")
+		case st.withVariable.Load() == 0 || st.withPercent.Load() == 0:
+			r.EngineError("vacuous: vm leg had no script with a portion variable / a percent literal")
+		}
+		for f, fname := range []string{"destination", "source"} {
+			for k := 0; k < c24zKinds; k++ {
+				if st.zeroOwedUnit[f][k].Load() == 0 {
+					r.EngineError(fmt.Sprintf("vacuous: vm leg had no %s-allotment run where a zero portion (%s) sits among the first `leftover` parts (is owed a rounding unit)", fname, c24zName[k]))
+				}
+			}
+		}
+	}
+	zero := map[string]int64{}
+	for f, fname := range []string{"destination", "source"} {
+		for k := 0; k < c24zKinds; k++ {
+			zero[fname+":"+c24zName[k]] = st.zeroOwedUnit[f][k].Load()
+		}
+	}
+	cov := ev.Coverage{
+		"rule": fmt.Sprintf("(VM) every portion vector of length<=%d over rationals n/d in [0,1] (%s; zero included at every position), n specifics summing to 1 or n-1 specifics summing to <=1 with `remaining` at every position (so `remaining` also resolves to 0), written as a Numscript allotment in every way the compiler accepts: each specific portion a literal or a `portion` variable bound through the script variables, fraction spelling and percent spelling (where the value has a finite one), as a destination allotment (`send A (source = @world destination = { p_i to @d_i })`) and as a source allotment (`source = { p_i from @s_i } destination = @d`, every source holding 10^40); compiled by compiler.Compile and run by the machine runtime (NewMachine, SetVarsFromJSON, ResolveResources, ResolveBalances, Execute); amount = variable $amt over %d amounts (0..%d, 2^63-1..2^63+1, 2^64-1..2^64+1, 10^30+{0,1,7}) and literal `[COIN n]` over %d amounts (%v, 2^64+1; fraction spelling, one compilation per amount); oracle on the POSTINGS: amount moved to @d_i / taken from @s_i = floor(amount*p_i) + [i < leftover], all postings sum to the amount",
+			maxLen, strings.Join(spaceDesc, ", "), len(amounts), maxAmt, len(litAmounts), litSmall),
+		"wall_s":                                   r.Elapsed().Seconds() - legStart.Seconds(),
+		"lengths_fully_covered":                    stagesDone,
+		"shapes":                                   st.shapes.Load(),
+		"scripts":                                  st.programs.Load(),
+		"scripts_compiled":                         st.compiled.Load(),
+		"literal_amount_scripts_compiled":          st.literalAmountPrograms.Load(),
+		"scripts_with_portion_variable":            st.withVariable.Load(),
+		"scripts_with_percent_spelling":            st.withPercent.Load(),
+		"runs":                                     st.runs.Load(),
+		"runs_destination_allotment":               st.byForm[0].Load(),
+		"runs_source_allotment":                    st.byForm[1].Load(),
+		"runs_with_leftover":                       st.leftoverRuns.Load(),
+		"runs_where_a_zero_portion_is_owed_a_unit": zero,
+		"postings":                                 st.postings.Load(),
+		"zero_amount_postings":                     st.zeroPostings.Load(),
+		"distinct_nontrivial":                      st.distinctN.Load(),
+		"unexpected_failures":                      st.failures.Load(),
+	}
+	return cov, samples.List()
 }
